@@ -952,3 +952,59 @@ def quantity_or_default(fn_node):
             out.append((n, f"quantity-or-default:{nm}", f"`{A.unparse(n)[:60]}` substitutes the fallback whenever `{A.unparse(l)}` is false: a legitimate zero value of {nm} "
                         f"(the epoch, mode 0000, uid 0, revision 0) is replaced as if nothing had been given"))
     return out
+
+
+def guard_attr_deviates(fn_node):
+    """A run of sibling blocks ``if obj.a is not None: out[...] = f(obj.a)`` where one block tests ``obj.a`` but uses only
+    ``obj.b``: the copy/paste deviation among otherwise uniform siblings (the block is emitted or skipped on the wrong
+    field's presence).  Armed only when at least three siblings in the function follow the pattern consistently."""
+    out = []
+    good, bad = 0, []
+    for i in ast.walk(fn_node):
+        if not (isinstance(i, ast.If) and not i.orelse):
+            continue
+        t = i.test
+        if isinstance(t, ast.Compare) and len(t.ops) == 1 and isinstance(t.ops[0], (ast.IsNot, ast.NotEq)) and isinstance(t.comparators[0], ast.Constant) and t.comparators[0].value is None:
+            g = t.left
+        else:
+            continue  # only explicit presence tests: a boolean flag legitimately guards other fields
+        if not (isinstance(g, ast.Attribute) and isinstance(g.value, ast.Name)):
+            continue
+        obj, attr = g.value.id, g.attr
+        used = {n.attr for s in i.body for n in ast.walk(s) if isinstance(n, ast.Attribute) and isinstance(n.value, ast.Name) and n.value.id == obj}
+        if not used:
+            continue
+        if attr in used:
+            good += 1
+        elif len(i.body) == 1:
+            bad.append((i, obj, attr, sorted(used)))
+    if good >= 3:
+        for i, obj, attr, used in bad:
+            out.append((i, f"guard-attr-deviates:{attr}", f"`if {A.unparse(i.test)}` guards a block that only uses `{obj}.{used[0]}`; {good} sibling blocks in this function test the very "
+                        f"attribute they use — this one is decided by another field's presence"))
+    return out
+
+
+def unbalanced_peer_args(fn_node):
+    """In a binary method ``(self, other)``: a call or comparison that takes attributes of both operands but not the *same*
+    attributes from each side — ``ver_cmp(self.version, self.revision, other.version, self.revision)`` — one side's field was
+    pasted where the peer's belongs."""
+    import collections
+    out = []
+    if not isinstance(fn_node, (ast.FunctionDef, ast.AsyncFunctionDef)):
+        return out
+    ps = [a.arg for a in fn_node.args.posonlyargs + fn_node.args.args]
+    if len(ps) != 2 or ps[0] != "self" or ps[1] not in ("other", "o", "rhs", "right", "peer"):
+        return out
+    o = ps[1]
+    for c in ast.walk(fn_node):
+        if not isinstance(c, (ast.Call, ast.Compare)):
+            continue
+        args = list(c.args) if isinstance(c, ast.Call) else [c.left] + list(c.comparators)
+        sa = collections.Counter(a.attr for a in args if isinstance(a, ast.Attribute) and isinstance(a.value, ast.Name) and a.value.id == "self")
+        oa = collections.Counter(a.attr for a in args if isinstance(a, ast.Attribute) and isinstance(a.value, ast.Name) and a.value.id == o)
+        if sa and oa and sum(sa.values()) + sum(oa.values()) >= 3 and sa != oa:
+            diff = sorted((sa - oa).keys()) + sorted((oa - sa).keys())
+            out.append((c, f"unbalanced-peer-args:{','.join(diff)[:30]}", f"`{A.unparse(c)[:80]}` takes {dict(sa)} from self but {dict(oa)} from {o}: the two operands do not contribute the "
+                        f"same fields, so the result ignores (or doubles) one side's `{diff[0]}`"))
+    return out
